@@ -97,6 +97,10 @@ CHECKS = {
             "bounded-exhaustive enumeration of tool switches (off / on) x presets x screen-content mode x contents, and of tile_rows x tile_columns x picture sizes x superblock size; frame-header fields and per-block tool usage read through the SVT decoder's parser (libaom-confirmed); tile oracle = checker's transcription of AV1 tile_info()",
             "For each of 13 switches the off runs must show no frame-level or block-level use in any coded frame (on runs establish reachability, else VACUOUS); for every requested tiling the signalled tile counts and start positions must equal the spec's uniform-spacing result.",
             "sequence-header enable flags not demanded; portrait sizes not inspectable (SVT decoder crash); intrabc only with screen_content_mode 1; 8-bit", "4/C20"),
+    "C17": ("multi_h under sched", "model_checking",
+            "exhaustive enumeration of all C(14,7)=3432 interleavings of two 7-step API session scripts (two instances in one process, both static libraries linked together) executed on the real libraries under the controlled scheduler; differential oracle against each instance's solo run",
+            "For each instance pair (encoder/encoder with different configurations, decoder/decoder, encoder/decoder) every interleaving of the two scripts at API-call granularity is executed; both instances must return success everywhere and produce exactly their solo output; no crash or deadlock.",
+            "API calls of the two instances are serialised (one application thread), overlapping calls are not explored; shared unsynchronised state is decided by its observable effect, not by a race detector", "4/C17"),
 }
 
 NOT_YET = {}
